@@ -1,8 +1,9 @@
 //go:build verif
 
-// Minimal reproductions of what tools/vcheck C17 finds on the unchanged tree (spec/wire, harness/c17wire).
+// Minimal reproductions of what tools/vcheck C17 found on tree 2945f83 (spec/wire, harness/c17wire).
 // Copy into /verif/harness/zzprobe and run:  go test -tags verif -run TestC17 -v ./zzprobe
-// Every test FAILS on the unchanged tree and says what the statement of C17 demands.
+//   TestC17Repaired...  failed on 2945f83, pass once the repairs R1 R2 R3 R4 R5 R7-panic (/verif/.work/c17-fix-*.diff) are in
+//   TestC17Known...     known findings (known_findings.json, property C17): they FAIL and say what the statement demands
 package zzprobe
 
 import (
@@ -34,7 +35,7 @@ import (
 // 1. Encoding an execution result CHANGES the object that stays in memory (VMState |= 0x80 when invocations are
 // recorded); core/blockchain.go compares aer.VMState == vmstate.Halt right after StoreAsTransaction, so with
 // SaveInvocations the token transfer log (and the notification feed) loses the transfers of every invoking transaction.
-func TestC17EncodeMarksExecutionResult(t *testing.T) {
+func TestC17RepairedR1EncodeMarksExecutionResult(t *testing.T) {
 	a := &state.AppExecResult{Execution: state.Execution{Trigger: trigger.Application, VMState: vmstate.Halt,
 		Invocations: []state.ContractInvocation{*state.NewContractInvocation(util.Uint160{1}, "m", []byte{0x40, 0}, 0)}}}
 	w := io.NewBufBinWriter()
@@ -73,7 +74,7 @@ func sampleTx() *transaction.Transaction {
 // 2. A transaction received with a non-minimal var-int reports the length of the RECEIVED bytes as its size: not the
 // length of its encoding, and another size than the same transaction has after any re-encoding; its verbose JSON form
 // is refused by the node's own client ("'size' doesn't match").
-func TestC17SizeOfReceivedBytes(t *testing.T) {
+func TestC17RepairedR2SizeOfReceivedBytes(t *testing.T) {
 	raw := sampleTx().Bytes()
 	// the witness count (last var-int but two empty scripts) written as fd 01 00
 	nc := append(append([]byte{}, raw[:len(raw)-3]...), 0xfd, 1, 0, 0, 0)
@@ -103,7 +104,7 @@ func noPanic(t *testing.T, what string, f func() error) {
 }
 
 // 3. Stack item decoders panic instead of failing.
-func TestC17StackItemDecoderPanics(t *testing.T) {
+func TestC17RepairedR3StackItemDecoderPanics(t *testing.T) {
 	des := func(b ...byte) func() error { return func() error { _, err := stackitem.Deserialize(b); return err } }
 	noPanic(t, "integer of 33 bytes", des(0x21, 33))
 	noPanic(t, "array count 2^64-1", des(0x40, 0xff, 0xff, 0xff, 0xff, 0xff, 0xff, 0xff, 0xff, 0xff))
@@ -112,6 +113,15 @@ func TestC17StackItemDecoderPanics(t *testing.T) {
 	noPanic(t, "JSON integer beyond 256 bits", func() error {
 		_, err := stackitem.FromJSONWithTypes([]byte(`{"type":"Integer","value":"1` + strings.Repeat("0", 90) + `"}`))
 		return err
+	})
+	noPanic(t, "plain JSON object with a 65-byte key", func() error {
+		_, err := stackitem.FromJSON([]byte(`{"`+strings.Repeat("k", 65)+`":1}`), 10, true)
+		return err
+	})
+	noPanic(t, "protected form: map with the invalid-item marker as key", func() error {
+		r := io.NewBinReaderFromBuf([]byte{0x48, 1, 0xff, 0x20, 1})
+		stackitem.DecodeBinaryProtected(r)
+		return r.Err
 	})
 	noPanic(t, "plain JSON integer beyond 256 bits", func() error {
 		_, err := stackitem.FromJSON([]byte(`1`+strings.Repeat("0", 90)), 10, true)
@@ -131,7 +141,7 @@ func allocOf(f func()) (mb uint64, d time.Duration) {
 
 // 4. Count fields without a maximum: tens of bytes make a decoder allocate gigabytes (io.BinReader.ReadArray without a
 // limit allocates the whole slice and walks it even after the first error).
-func TestC17UnboundedAllocation(t *testing.T) {
+func TestC17RepairedR4UnboundedAllocation(t *testing.T) {
 	n := binary.LittleEndian.AppendUint32(nil, nef.Magic)
 	n = append(append(n, make([]byte, 64)...), 0, 0, 0xfe, 0, 0, 0, 1) // source "", reserved, 16M method tokens
 	mb, d := allocOf(func() { _, _ = nef.FileFromBytes(n) })
@@ -162,7 +172,7 @@ func TestC17UnboundedAllocation(t *testing.T) {
 // 5. result.ProofWithKey.DecodeBinary loops `count` times whatever happens to the reader: the argument of the
 // `verifyproof` RPC (and the answer of `getproof` at a client) with count 2^32 keeps a core busy for minutes and grows
 // the heap by 24 bytes per round (2^64: for ever).
-func TestC17ProofCountLoop(t *testing.T) {
+func TestC17RepairedR5ProofCountLoop(t *testing.T) {
 	in := []byte{1, 7, 0xfe, 0x00, 0x00, 0x00, 0x02} // key of one byte, 2^25 proof nodes, no data
 	done := make(chan struct{})
 	var mb uint64
@@ -182,7 +192,7 @@ func TestC17ProofCountLoop(t *testing.T) {
 
 // 6. A transaction with an attribute of the reserved range is accepted in binary form; its JSON form cannot be decoded
 // (binary -> JSON -> binary is broken for a value the binary decoder delivers).
-func TestC17ReservedAttributeJSON(t *testing.T) {
+func TestC17KnownR6ReservedAttributeJSON(t *testing.T) {
 	tx := sampleTx()
 	tx.Attributes = []transaction.Attribute{{Type: transaction.ReservedLowerBound + 1, Value: &transaction.Reserved{Value: []byte{1}}}}
 	got, err := transaction.NewTransactionFromBytes(tx.Bytes())
@@ -199,7 +209,7 @@ func TestC17ReservedAttributeJSON(t *testing.T) {
 }
 
 // 7. JSON decoders deliver values that have no binary form (the binary decoder refuses their encoding), or panic.
-func TestC17JSONAcceptsWhatBinaryRefuses(t *testing.T) {
+func TestC17KnownR7JSONAcceptsWhatBinaryRefuses(t *testing.T) {
 	hashes := make([]string, 17)
 	for i := range hashes {
 		hashes[i] = `"0x00000000000000000000000000000000000000` + string("0123456789abcdef"[i%16]) + `1"`
@@ -233,6 +243,10 @@ func TestC17JSONAcceptsWhatBinaryRefuses(t *testing.T) {
 			}
 		}
 	}
+}
+
+// 7b. A null in a signer's list of groups made Transaction.UnmarshalJSON panic (nil dereference while hashing).
+func TestC17RepairedR7NullGroupPanic(t *testing.T) {
 	noPanic(t, "transaction JSON with a null group", func() error {
 		tx := sampleTx()
 		js, _ := json.Marshal(tx)
@@ -243,7 +257,7 @@ func TestC17JSONAcceptsWhatBinaryRefuses(t *testing.T) {
 
 // 8. The JSON form of a recorded invocation does not lead back to its binary form: the arguments are lost (and a second
 // JSON encoding drops them, a third fails).
-func TestC17InvocationArgumentsJSON(t *testing.T) {
+func TestC17KnownR8InvocationArgumentsJSON(t *testing.T) {
 	args, _ := stackitem.Serialize(stackitem.NewArray([]stackitem.Item{stackitem.Make(5)}))
 	a := &state.AppExecResult{Execution: state.Execution{Trigger: trigger.Application, VMState: vmstate.Halt, Stack: []stackitem.Item{},
 		Events: []state.NotificationEvent{}, Invocations: []state.ContractInvocation{*state.NewContractInvocation(util.Uint160{1}, "m", args, 1)}}}
